@@ -41,8 +41,9 @@ URL = "ws://relay.example"
 def gen(rng, knobs):
     backend = rng.choice(["sql", "lmdb"])
     alpha = "arwsx"
-    actions = {"save": "".join(rng.sample(alpha, rng.randint(1, 3))),
-               "query": "".join(rng.sample(alpha, rng.randint(1, 3)))}
+    # (an action configured with NO role - "" - means nobody may do it)
+    actions = {"save": "".join(rng.sample(alpha, rng.choice([0, 1, 1, 2, 2, 3]))),
+               "query": "".join(rng.sample(alpha, rng.choice([0, 1, 1, 2, 2, 3])))}
     assign = []
     for _ in range(rng.randint(1, 4)):
         k = rng.choice([0, 1, 3])
